@@ -6,8 +6,8 @@ says `None` (undecided) everywhere else.  It never calls the type-inference code
 Covered: constants (by their constant class and the program's built-in factory),
 bottom constants (their cast type, bottom when none is recorded), `New` with explicit type arguments, variables and parameters
 resolved through the program's context (innermost enclosing namespace), a block's last
-expression, calls of non-generic top-level / same-class functions with a declared return
-type.  Everything else is undecided.
+expression, calls of non-generic top-level / same-class functions and of methods of non-generic
+user classes (through a receiver whose type is evident) with a declared return type.  Everything else is undecided.
 """
 from src.ir import ast, types as tp
 from src.ir.context import get_decl
@@ -82,6 +82,27 @@ class Typer:
                     if d.ret_type.has_type_variables() if hasattr(d.ret_type, 'has_type_variables') else False:
                         return None
                     return d.ret_type
+                return None
+            if isinstance(e, ast.FunctionCall) and e.receiver is not None and not e.type_args:
+                # method of a non-generic user class (own or inherited by declared name), declared return type
+                rt = self.expr(e.receiver, namespace)
+                if rt is None or isinstance(rt, tp.ParameterizedType) or not isinstance(rt, tp.SimpleClassifier):
+                    return None
+                classes = self.p.context.get_classes(ast.GLOBAL_NAMESPACE, glob=True)
+                cls, seen = classes.get(rt.name), set()
+                while cls is not None and cls.name not in seen:
+                    seen.add(cls.name)
+                    if cls.type_parameters:
+                        return None
+                    for fn in cls.functions:
+                        if fn.name == e.func:
+                            if fn.type_parameters or fn.ret_type is None:
+                                return None
+                            if fn.ret_type.has_type_variables() if hasattr(fn.ret_type, 'has_type_variables') else False:
+                                return None
+                            return fn.ret_type
+                    sup = cls.superclasses[0].class_type if cls.superclasses else None
+                    cls = classes.get(getattr(sup, 'name', None)) if sup is not None and not isinstance(sup, tp.ParameterizedType) else None
                 return None
             return None
         finally:
